@@ -87,7 +87,8 @@ def gen_scenario(batch_seed, i, tier):
             'content': core.enc(content), 'mkw': core.enc(mkw), 'skw': core.enc(skw), 'routes': routes,
             'ext_case': _randcase(rng, kind), 'kind_case': _randcase(rng, kind), 'svgz_case': _randcase(rng, 'svgz'),
             'clock': clock, 'bufsize': rng.choice((0, 16, 512, 8192)), 'faults': faults,
-            'terminal': {'border': rng.choice((None, 0, 1, 4)), 'compact': rng.random() < 0.4}}
+            'terminal': {'border': rng.choice((None, 0, 1, 4)), 'compact': rng.random() < 0.4},
+            'seq_name': rng.choice(('seq', 'seq', 'seq', 'se.q', 'my.seq.v2', 's{e}q', 's{}q', '{0}', 'out.d/seq', 'a-01-02', 's%dq'))}
 
 
 def _viol(clause, msg, **detail):
@@ -251,12 +252,12 @@ def execute(sc):
                 o.docs = docs
                 return o
             if r == 'seq_save':
-                base = 'seq-%s' % tag
+                base = '%s-%s' % (sc.get('seq_name', 'seq'), tag)
                 sym.save('%s.%s' % (base, ext), **skw)
                 o = Outcome(r, None, files=stamp_files(before), extra=base)
                 return o
             if r == 'seq_cli':
-                base = 'seqcli-%s' % tag
+                base = '%s-cli-%s' % (sc.get('seq_name', 'seq'), tag)
                 argv = opts.make_argv(mkw, seq=True) + opts.ser_argv(skw) + ['--output=%s.%s' % (base, ext), content]
                 pr = world.run_cli(argv, plan=w.plan)
                 o = Outcome(r, None, files=stamp_files(before), extra=base)
